@@ -1,4 +1,5 @@
 import Emerge.Driver.Scan
+import Emerge.Driver.Parse
 /-
   Model driver: one case per input line, one result per output line (same protocol as the Go harness).
 -/
@@ -11,6 +12,10 @@ def dispatch (cmd : String) (fields : List String) : String :=
   | "scanref41" => cmdScanWith (refSpec false) fields
   | "refadvance" => cmdRefAdvance fields
   | "advance" => cmdGenAdvance fields
+  | "lr" => cmdLr fields
+  | "parse" => cmdParse fields
+  | "action" => cmdAction fields
+  | "goto" => cmdGoto fields
   | _ => "UNKNOWN-COMMAND"
 
 partial def loop (cmd : String) (h : IO.FS.Stream) (out : IO.FS.Stream) : IO Unit := do
